@@ -1191,22 +1191,34 @@ func validateProposedConfigEntryInServiceGraph(
 		sid := structs.NewServiceID(kindName.Name, &kindName.EnterpriseMeta)
 		checkChains[sid] = struct{}{}
 
-		iter, err := tx.Get(tableConfigEntries, indexLink, sid)
-		if err != nil {
-			return err
-		}
-		for raw := iter.Next(); raw != nil; raw = iter.Next() {
-			entry := raw.(structs.ConfigEntry)
-			switch entry.GetKind() {
-			case structs.ServiceRouter, structs.ServiceSplitter, structs.ServiceResolver:
-				svcID := structs.NewServiceID(entry.GetName(), entry.GetEnterpriseMeta())
-				checkChains[svcID] = struct{}{}
-			case structs.IngressGateway:
-				ingress, ok := entry.(*structs.IngressGatewayConfigEntry)
-				if !ok {
-					return fmt.Errorf("type %T is not an ingress gateway config entry", entry)
+		// Follow the links transitively: a chain that reaches this service
+		// through another service's router, splitter or resolver is affected
+		// by the change just as much as a chain that references it directly.
+		pending := []structs.ServiceID{sid}
+		for len(pending) > 0 {
+			next := pending[0]
+			pending = pending[1:]
+
+			iter, err := tx.Get(tableConfigEntries, indexLink, next)
+			if err != nil {
+				return err
+			}
+			for raw := iter.Next(); raw != nil; raw = iter.Next() {
+				entry := raw.(structs.ConfigEntry)
+				switch entry.GetKind() {
+				case structs.ServiceRouter, structs.ServiceSplitter, structs.ServiceResolver:
+					svcID := structs.NewServiceID(entry.GetName(), entry.GetEnterpriseMeta())
+					if _, seen := checkChains[svcID]; !seen {
+						checkChains[svcID] = struct{}{}
+						pending = append(pending, svcID)
+					}
+				case structs.IngressGateway:
+					ingress, ok := entry.(*structs.IngressGatewayConfigEntry)
+					if !ok {
+						return fmt.Errorf("type %T is not an ingress gateway config entry", entry)
+					}
+					checkIngress = append(checkIngress, ingress)
 				}
-				checkIngress = append(checkIngress, ingress)
 			}
 		}
 	}
